@@ -62,29 +62,38 @@ LooseAfter(op, o, r) ==   \* is the receiver / result stored loosely after this 
                                           \/ (op[1] = "elem"))) \/ ~o.exact_a,
      res |-> ~o.exact_res \/ (r \in loose /\ op[1] \in {"copy", "shift", "elem"})]
 
-Step(r, g, k, op) ==
-    \E A \in {Uncanon(cs[r])} : \E B \in {Uncanon(cs[g])} :
-      /\ op \in Ops(A.nv)
-      /\ (UsesB(op) => (g # r /\ Compatible(A, B)))
+\* enabling conditions that do not depend on the outcome (shared with TraceSeries.tla)
+Pre(r, g, op) ==
+      /\ (UsesB(op) => g # r)
       /\ (~UsesB(op) => g = r)
       \* operations whose outcome depends on the stored span (not only on the map) are taken only on
       \* handles whose stored span is known to be the trimmed one
       /\ (r \in loose => ~( (op[1] = "fill" /\ op[5] = None) \/ (op[1] = "stat" /\ op[3] \in {"nansum", "nanprod", "nanmax", "nanmin"})
                             \/ op[1] \in {"underlay"} ))
       /\ (g \in loose => op[1] # "overlay")
+\* the state after an accepted outcome o of operation op with receiver r and target k
+NewCs(r, k, o) == IF o.res = NoSer THEN [cs EXCEPT ![r] = Canon(o.a)]
+                  ELSE [cs EXCEPT ![r] = Canon(o.a), ![k] = Canon(o.res)]
+NewLoose(r, k, op, o) == LET la == LooseAfter(op, o, r) IN
+                         IF o.res = NoSer
+                         THEN (IF op[1] \in {"set", "fill", "extrap", "stat", "mov", "overlay", "underlay"} /\ ~la.a
+                               THEN loose \ {r} ELSE IF la.a THEN loose \cup {r} ELSE loose)
+                         ELSE (IF la.res THEN loose \cup {k} ELSE loose \ {k})
+Eff(r, g, k, op, o) ==
+           /\ cs' = NewCs(r, k, o)
+           /\ val' = o.val
+           /\ last' = <<op, r, g, k>>
+           /\ loose' = NewLoose(r, k, op, o)
+Step(r, g, k, op) ==
+    \E A \in {Uncanon(cs[r])} : \E B \in {Uncanon(cs[g])} :
+      /\ op \in Ops(A.nv)
+      /\ Pre(r, g, op)
+      /\ (UsesB(op) => Compatible(A, B))
       /\ \E o \in {Apply(A, B, op)} :
            /\ ~o.rej
            /\ Bounded(o.a) /\ (o.res # NoSer => Bounded(o.res))
            /\ (o.res = NoSer => k = r)
-           /\ cs' = IF o.res = NoSer THEN [cs EXCEPT ![r] = Canon(o.a)]
-                    ELSE [cs EXCEPT ![r] = Canon(o.a), ![k] = Canon(o.res)]
-           /\ val' = o.val
-           /\ last' = <<op, r, g, k>>
-           /\ \E la \in {LooseAfter(op, o, r)} :
-                loose' = IF o.res = NoSer
-                         THEN (IF op[1] \in {"set", "fill", "extrap", "stat", "mov", "overlay", "underlay"} /\ ~la.a
-                               THEN loose \ {r} ELSE IF la.a THEN loose \cup {r} ELSE loose)
-                         ELSE (IF la.res THEN loose \cup {k} ELSE loose \ {k})
+           /\ Eff(r, g, k, op, o)
 Next == \E r \in Handles, g \in Handles, k \in Handles : \E op \in Ops(1) \cup Ops(2) : Step(r, g, k, op)
 Spec == Init /\ [][Next]_vars
 
